@@ -25,7 +25,9 @@ class DeepPredictiveLogLikelihood(_ApproximateMarginalLogLikelihood):
 
     def _log_likelihood_term(self, approximate_dist_f, target, **kwargs):
         base_log_marginal = self.likelihood.log_marginal(target, approximate_dist_f, **kwargs)
-        deep_log_marginal = self.model.quad_weights.unsqueeze(-1) + base_log_marginal
+        # one weight per quadrature site (the leading dimension), whatever batch dimensions the data carry
+        quad_weights = self.model.quad_weights.view(-1, *[1] * (base_log_marginal.dim() - 1))
+        deep_log_marginal = quad_weights + base_log_marginal
 
         deep_log_prob = deep_log_marginal.logsumexp(dim=0)
 
